@@ -52,36 +52,23 @@ def drain1(ctx: Ctx, chk) -> None:
     buf = ctx.cls(BUFFER)
     fields = [st.target.id for st in buf.node.body if isinstance(st, ast.AnnAssign) and isinstance(st.target, ast.Name)]
     chk.floor(rule, "MessageBuffer collections", len(fields), 2)
+    from . import sleepbuf as sb
+
     for fld in fields:
-        stores, reads = [], []
+        # a drain: a function that iterates entries of the collection (directly, through a local alias, or through a
+        # helper that hands them out) and sends them
+        drains = sb.flush_functions(ctx, fld)
         for f in prog.all_functions():
-            for n in ctx.own_nodes(f):
-                if isinstance(n, ast.Assign):
-                    for t in n.targets:
-                        if isinstance(t, ast.Subscript) and isinstance(t.value, ast.Attribute) and t.value.attr == fld:
-                            stores.append((f, n))
-                if isinstance(n, ast.Call) and isinstance(n.func, ast.Attribute) and n.func.attr in ("items", "values", "pop", "get", "popitem") and isinstance(n.func.value, ast.Attribute) and n.func.value.attr == fld:
-                    reads.append((f, n))
-                if isinstance(n, ast.Subscript) and isinstance(n.ctx, ast.Load) and isinstance(n.value, ast.Attribute) and n.value.attr == fld:
-                    reads.append((f, n))
-        # a drain: a function that reads entries and (transitively) sends them unbuffered / writes them
-        drains = []
-        for f, n in reads:
-            sends = [c for c in ctx.own_nodes(f) if isinstance(c, ast.Call) and isinstance(c.func, ast.Attribute) and c.func.attr in ("send", "write")]
-            if n.func.attr in ("items", "values") if isinstance(n, ast.Call) else False:
-                if sends:
-                    drains.append((f, n))
-        for f, st in stores:
             # only stores on a send path (outgoing handlers)
             if f.cls is None or "Outgoing" not in f.cls.name:
                 continue
-            chk.instance(rule)
-            key = f"{f.fq}::store::{fld}"
-            if drains:
-                d = drains[0]
-                chk.ok(rule, key, f"drained by {d[0].qualname} (iterates {fld} and sends)", ctx.loc(f, st))
-            else:
-                chk.refute(rule, key, f"a message sent with buffering allowed is parked in MessageBuffer.{fld} by {f.qualname} and no code path ever takes entries of {fld} to the transport: the message is silently never written", ctx.loc(f, st))
+            for st, _k, _v in sb.store_sites(ctx, f, fld):
+                chk.instance(rule)
+                key = f"{f.fq}::store::{fld}"
+                if drains:
+                    chk.ok(rule, key, f"drained by {drains[0].qualname} (iterates {fld} and sends)", ctx.loc(f, st))
+                else:
+                    chk.refute(rule, key, f"a message sent with buffering allowed is parked in MessageBuffer.{fld} by {f.qualname} and no code path ever takes entries of {fld} to the transport: the message is silently never written", ctx.loc(f, st))
 
 
 def eea_send(ctx: Ctx, chk) -> None:
@@ -179,8 +166,9 @@ def outcome1(ctx: Ctx, chk) -> None:
                 bad = None
                 paths = _paths(g)
                 for p in paths:
-                    ev = [x for x in p if x.kind == "stmt" and (id(x.ast) in stores or id(x.ast) in writes or id(x.ast) in delegates)]
-                    if len(ev) != 1:
+                    ev = [("park" if id(x.ast) in stores else "write" if id(x.ast) in writes else "delegate") for x in p if x.kind == "stmt" and (id(x.ast) in stores or id(x.ast) in writes or id(x.ast) in delegates)]
+                    # several statements that together park one entry (store, then refresh its fields) are one outcome
+                    if not ev or len(set(ev)) != 1 or (ev[0] != "park" and len(ev) != 1):
                         bad = (p, ev)
                         break
                 key = f"{f.fq}::one-outcome"
@@ -188,7 +176,7 @@ def outcome1(ctx: Ctx, chk) -> None:
                     chk.ok(rule, key, f"{len(paths)} path(s), each writes or parks exactly once", f.where, sample=len(done) <= 2)
                 else:
                     p, ev = bad if bad else ([], [])
-                    chk.refute(rule, key, f"a path through {f.qualname} has {len(ev)} outcomes ({' -> '.join(g.path_text(p)[1:5])}): the message is {'silently discarded' if not ev else 'both parked and written'}", f.where)
+                    chk.refute(rule, key, f"a path through {f.qualname} has outcomes {ev} ({' -> '.join(g.path_text(p)[1:5])}): the message is {'silently discarded' if not ev else 'both parked and written'}", f.where)
     chk.floor(rule, "outgoing handler definitions", len(done), 5)
 
 
